@@ -15,6 +15,9 @@ Init ==
     \* relative to error sites")
     \/ \E d \in {"json", "csv", "vpl"}, w \in 2..4, sh \in 0..3, n \in RunLens, site \in {"start", "middle", "end"} :
             c = <<"mbrun", d, w, sh, n, site>> /\ Emit([k |-> "mbrun", dec |-> d, width |-> w, shift |-> sh, len |-> n, site |-> site])
+    \* CSV tables by their SHAPE: a header of h fields followed by 1..4 rows of 0..4 fields each (ragged rows in every order:
+    \* a reader that carries state from row to row sees every succession of lengths)
+    \/ \E h \in 1..3, rows \in UNION { [1..n -> 0..4] : n \in 1..4 } : c = <<"csvrows", h, rows>> /\ Emit([k |-> "csvrows", header |-> h, rows |-> rows])
     \/ \E f \in Formats : \E fld \in Fields[f], cl \in Classes : c = <<"bin", f, fld, cl>> /\ Emit([k |-> "bin", fmt |-> f, field |-> fld, class |-> cl])
     \/ \E d \in {"json", "vpl", "tilejson"}, depth \in {16, 64, 256} : c = <<"nest", d, depth>> /\ Emit([k |-> "nest", dec |-> d, depth |-> depth])
 Next == UNCHANGED vars
